@@ -1,0 +1,85 @@
+//go:build verif
+// +build verif
+
+// Verification hook H3e (add-only, compiled only with -tags verif): a Processor with just the fields
+// OnMessageVerify / loadOrNewSignParty use, so that verify messages enter through the node's real
+// Processor.OnMessageVerify (routing by cvm.BlockHash, buffering in Processor.futureMessages while no
+// party is registered under that key). Registering the party under its initial key and the
+// re-registration under the block hash are done synchronously here (in the node: loadOrNewSignParty
+// with isNew and the ChangedId branch of Processor.waitUntilDone, whose timers and per-message
+// goroutines would make a step-by-step oracle timing dependent): Rekey performs the map updates of
+// that branch and hands the buffered messages back in their stored order instead of starting one
+// goroutine per message. No behaviour of existing code paths changes.
+package logical
+
+import (
+	"strconv"
+
+	"com.tuntun.rangers/node/src/common"
+	"com.tuntun.rangers/node/src/consensus/access"
+	"com.tuntun.rangers/node/src/consensus/model"
+	"com.tuntun.rangers/node/src/consensus/net"
+	"com.tuntun.rangers/node/src/core"
+	"com.tuntun.rangers/node/src/middleware"
+	"com.tuntun.rangers/node/src/middleware/log"
+)
+
+type VerifC15Proc struct{ p *Processor }
+
+func VerifC15NewProcessor(self model.SelfMinerInfo, belong *access.JoinedGroupStorage, chain core.BlockChain, ns net.NetworkServer) *VerifC15Proc {
+	mi := self
+	return &VerifC15Proc{p: &Processor{
+		mi:             &mi,
+		belongGroups:   belong,
+		MainChain:      chain,
+		NetServer:      ns,
+		partyManager:   make(map[string]Party, 10),
+		partyLock:      middleware.NewLoglock("partyLock"),
+		logger:         log.GetLoggerByIndex(log.CLogConfig, strconv.Itoa(common.InstanceIndex)),
+		finishedParty:  common.CreateLRUCache(300),
+		futureMessages: common.CreateLRUCache(50),
+	}}
+}
+
+// OnMessageVerify is the unmodified Processor.OnMessageVerify.
+func (q *VerifC15Proc) OnMessageVerify(m *model.ConsensusVerifyMessage) { q.p.OnMessageVerify(m) }
+
+// Register files the started party under its initial key, as loadOrNewSignParty does for a proposal.
+func (q *VerifC15Proc) Register(v *VerifC15Party, initialKey string) {
+	q.p.partyLock.Lock("verif-register")
+	defer q.p.partyLock.Unlock("verif-register")
+	q.p.partyManager[initialKey] = v.p
+}
+
+// Rekey is the ChangedId branch of waitUntilDone: the initial key is marked finished, the party is
+// re-registered under realKey, the messages buffered under realKey are removed from the buffer and
+// returned (the node starts `go party.Update(m)` for each of them).
+func (q *VerifC15Proc) Rekey(v *VerifC15Party, initialKey, realKey string) []model.ConsensusMessage {
+	p := q.p
+	p.partyLock.Lock("changeId")
+	defer p.partyLock.Unlock("changeId")
+	p.finishedParty.Add(initialKey, 0)
+	delete(p.partyManager, initialKey)
+	v.p.SetId(realKey)
+	p.partyManager[realKey] = v.p
+	var out []model.ConsensusMessage
+	if msgsRaw, ok := p.futureMessages.Get(realKey); ok {
+		msgs := msgsRaw.([]model.ConsensusMessage)
+		p.futureMessages.Remove(realKey)
+		for _, msg := range msgs {
+			if nil == msg {
+				continue
+			}
+			out = append(out, msg)
+		}
+	}
+	return out
+}
+
+// Buffered is the number of messages Processor.futureMessages holds under key.
+func (q *VerifC15Proc) Buffered(key string) int {
+	if msgsRaw, ok := q.p.futureMessages.Get(key); ok {
+		return len(msgsRaw.([]model.ConsensusMessage))
+	}
+	return 0
+}
